@@ -7,5 +7,5 @@ import (
 )
 
 func TestWorker(t *testing.T) {
-	core.WorkerMain(t, core.Property{ID: "C06", Configs: []string{"clean", "faulty"}, Build: Build})
+	core.WorkerMain(t, core.Property{ID: "C06", Configs: []string{"clean", "faulty", "secs1"}, Build: Build})
 }
